@@ -91,4 +91,45 @@ theorem loadFields_total (p : Nat) (m : Mem) : ∀ (fs : List Ty) (a cur : Nat),
       simp [Spec.loadFields, hv, hvs]
 end
 
+theorem castI32_small (bits w : Nat) (hb : bits ≤ 32) : castI32 bits w = w % 2 ^ bits := by
+  simp only [castI32, hb, ↓reduceIte]
+  exact Nat.mod_mod_of_dvd w (Nat.pow_dvd_pow 2 hb)
+
+
+
+theorem castU32_testBit (bits w k : Nat) :
+    (castU32 bits w).testBit k = (decide (k < bits) && (decide (k < 32) && w.testBit k)) := by
+  simp only [castU32, Nat.testBit_mod_two_pow]
+
+/-- bit `i` of the OR of the zero-extended, shifted words is bit `i % 32` of word `i / 32` -/
+theorem rustFlagsBits_testBit (bits : Nat) : ∀ (ws : List Nat) (i0 i : Nat), i < bits →
+    (rustFlagsBits false bits ws i0).testBit i =
+      (decide (i0 ≤ i / 32) && (ws.getD (i / 32 - i0) 0).testBit (i % 32))
+  | [], i0, i, _ => by simp [rustFlagsBits]
+  | w :: ws, i0, i, hi => by
+      have ih := rustFlagsBits_testBit bits ws (i0 + 1) i hi
+      simp only [rustFlagsBits, Bool.false_eq_true, ↓reduceIte, Nat.testBit_or, Nat.testBit_mod_two_pow,
+        Nat.testBit_mul_two_pow, castU32_testBit, ih, hi, decide_true, Bool.true_and]
+      by_cases h1 : i0 ≤ i / 32
+      · by_cases h2 : i / 32 = i0
+        · have e1 : 32 * i0 ≤ i := by omega
+          have e2 : i - 32 * i0 = i % 32 := by omega
+          have e3 : i - 32 * i0 < bits := by omega
+          have e4 : i % 32 < 32 := Nat.mod_lt _ (by omega)
+          have e5 : ¬ (i0 + 1 ≤ i / 32) := by omega
+          have e7 : i % 32 < bits := by omega
+          have e8 : ¬ (i0 + 1 ≤ i0) := by omega
+          simp [e1, e2, e4, e5, h1, h2, e7, e8]
+        · have e1 : 32 * i0 ≤ i := by omega
+          have e2 : ¬ (i - 32 * i0 < 32) := by omega
+          have e5 : i0 + 1 ≤ i / 32 := by omega
+          have e6 : i / 32 - i0 = (i / 32 - (i0 + 1)) + 1 := by omega
+          simp [e1, e2, e5, h1, e6]
+      · have e1 : ¬ (32 * i0 ≤ i) := by omega
+        have e5 : ¬ (i0 + 1 ≤ i / 32) := by omega
+        simp [e1, e5, h1]
+
+theorem flagsReprBits_ge (n : Nat) (hn : n ≤ 128) : n ≤ flagsReprBits n := by
+  simp only [flagsReprBits]; split <;> (try split) <;> (try split) <;> (try split) <;> omega
+
 end Witverif.Abi.RustProfile
